@@ -29,7 +29,7 @@ ASSUMPTIONS = [
     "both worlds of a case share the process zone (the property quantifies over reference times; timestamps are rendered in the process zone by design)",
     "frozen clock per call (a relation between calls needs each call to have one reference)",
 ]
-EXPECTED_PROBES = {"corpus_string": 1, "r0_judged": 1, "clock_in_play": 1, "strict_value": 1, "strict_none": 1, "custom_format_used": 1, "timestamp": 1, "require_parts": 1, "localized": 1}
+EXPECTED_PROBES = {"aware_reference": 1, "corpus_string": 1, "r0_judged": 1, "clock_in_play": 1, "strict_value": 1, "strict_none": 1, "custom_format_used": 1, "timestamp": 1, "require_parts": 1, "localized": 1}
 
 EN_MONTHS = ["January", "February", "March", "April", "May", "June", "July", "August", "September", "October", "November", "December"]
 EN_DAYS = ["Monday", "Tuesday", "Wednesday", "Thursday", "Friday", "Saturday", "Sunday"]
@@ -104,6 +104,8 @@ def gen_case(rng, ctx):
     y_, m_ = rng.randrange(1990, 2040), rng.randrange(1, 13)
     last_ = _cal.monthrange(y_, m_)[1]
     d = dt.datetime(y_, m_, rng.choice([rng.randrange(1, 29), rng.randrange(1, last_ + 1), last_, last_]), rng.randrange(24), rng.randrange(60))
+    if rng.random() < 0.04:
+        d = d.replace(year=rng.choice([1992, 1996, 2000, 2004, 2012, 2016, 2024, 2032]), month=2, day=29)  # a leap day, whatever the clocks' years are
     kind = rng.choice(["words", "words", "words", "numeric", "format", "format", "timestamp"])
     if ctx.corpus and rng.random() < 0.04:
         kind = "corpus"
@@ -213,6 +215,21 @@ def gen_case(rng, ctx):
     stricts.append({"REQUIRE_PARTS": rp})
     if rng.random() < 0.2:
         stricts.append({"STRICT_PARSING": True, "REQUIRE_PARTS": rng.choice(PART_SUBSETS[1:])})
+    if rng.random() < 0.12:
+        # aware reference times (different fixed offsets) together with an output zone / awareness
+        # setting: the zone of the REFERENCE must not leak into a strict result.  STRICT_PARSING only:
+        # with REQUIRE_PARTS the parts completed from the reference may legitimately move a converted
+        # result across midnight.
+        o1, o2 = rng.sample([540, -300, 330, 60, 0, -480, 765], 2)
+        b1 = b1.replace(tzinfo=dt.timezone(dt.timedelta(minutes=o1)))
+        if rng.random() < 0.7:
+            b2 = b2.replace(tzinfo=dt.timezone(dt.timedelta(minutes=o2)))
+        if rng.random() < 0.6:
+            extra["TO_TIMEZONE"] = rng.choice(["UTC", "Asia/Tokyo", "America/New_York", "Asia/Kolkata"])
+        else:
+            extra["RETURN_AS_TIMEZONE_AWARE"] = True
+        extra.pop("PREFER_DATES_FROM", None)
+        stricts = [{"STRICT_PARSING": True}]
     return {
         "zone": ctx.zone, "clock_us": world.to_us(t1), "clock2_us": world.to_us(t2), "bases": [enc_value(b1), enc_value(b2)],
         "string": s, "lang": lang, "formats": fmts, "extra": extra, "stricts": stricts, "present": present, "kind": kind, "localized": localized,
@@ -370,6 +387,8 @@ def eval_case(case):
         stats["localized"] = 1
     if case["kind"] == "corpus":
         stats["corpus_string"] = 1
+    if any(b is not None and b.tzinfo is not None for b in bases):
+        stats["aware_reference"] = 1
     problems = []
     out_log = {"plain": {"%d,%d" % k: (v[0], canon_dt(v[1]) if v[0] == "ok" else v[1]) for k, v in plain.items()}}
     for strict in case["stricts"]:
